@@ -241,6 +241,13 @@ def points(tier: str) -> List[Dict[str, Any]]:
         for tj in (0.0, 1.0):
             pts.append({"fam": "tc", "n": 2, "gaps": [g], "terminated": False, "content": "same-q/no-ka", "tc_jitter": tj,
                         "order": "timer-first", "sources": 2})
+    # a cooperating responder multicasts the asked records while the truncated query is being held: the answer owed to
+    # the train then falls under the one-second protection counted from that sighting
+    for sight in (50, 250, 330, 399):
+        for tj in (0.0, 0.5, 1.0):
+            for content in ("same-q/no-ka", "same-q/ka-split"):
+                pts.append({"fam": "tc", "n": 1, "gaps": [], "terminated": False, "content": content, "tc_jitter": tj,
+                            "order": "timer-first", "sources": 1, "sight_ms": sight})
     # the same scenarios on an IPv6-only host (every 7th point; sources are 4-tuples there)
     pts += [dict(p, v6=True) for p in pts[::7]]
     return pts
@@ -347,6 +354,9 @@ def judge_tc(problems: List[str], w: World, host: Any, p: Dict[str, Any], t_begi
         tc = not (term and i == n - 1)
         data = wire.query([("Q", nm, ty, 1) for nm, ty in q], answers=ka, id_=i + 1, tc=tc)
         script.append((t, data, srcs[i], tc))
+    if p.get("sight_ms") is not None:
+        w.loop.call_at((t_begin + p["sight_ms"]) / 1000, w.net.inject, host,
+                       wire.response([ka_ptr1, ka_ptr2, ("PTR", TB, 1, 4500, S3.name)]), src_tuple("10.0.0.77"))
     if p["order"] == "packet-first":
         for t, data, src, tc in script:
             w.loop.call_at(t / 1000, w.net.inject, host, data, src_tuple(src))
